@@ -103,3 +103,26 @@ Definition initial_b (s : sim) : bool :=
   nodup_keys_b (map (fun m => (mk_id m, 0)) (s_markets s)) &&
   forallb (fun m => match mk_orders m, mk_analytics m, mk_book m with [], [], None => true | _, _, _ => false end) (s_markets s) &&
   match s_queue s with [] => true | _ => false end && (1000 <=? s_next_name s).
+
+(* ---- C03 (simulation): the documented lifecycle as a relation on consecutive entries of an order's status log; writing Executable or
+        Execution complete again on an order that already has that status is not a transition ---- *)
+Definition lifecycle_ok (a b : status) : bool :=
+  match a, b with
+  | SNone, SPending | SNone, SViolation => true
+  | SPending, SExecutable | SPending, SExecComplete | SPending, SExpired | SPending, SViolation => true
+  | SExecutable, SCancelling | SExecutable, SUpdating | SExecutable, SReplacing | SExecutable, SExecComplete => true
+  | SCancelling, SExecutable | SCancelling, SExecComplete | SUpdating, SExecutable | SUpdating, SExecComplete
+  | SReplacing, SExecutable | SReplacing, SExecComplete => true
+  | SExecutable, SExecutable | SExecComplete, SExecComplete => true
+  | _, _ => false
+  end.
+Fixpoint lifecycle_path (a : status) (l : list status) : bool :=
+  match l with [] => true | b :: r => lifecycle_ok a b && lifecycle_path b r end.
+(* sizes the order validation control accepts: strictly positive *)
+Definition action_b3 (a : action) : bool :=
+  match (match a with AOn _ a' => a' | _ => a end) with
+  | APlace _ _ _ (OLimit _ s _ _ _) _ => 0 <? s
+  | _ => true
+  end.
+Definition event_b3 (sc : script) (n : Z) (e : event) : bool :=
+  forallb (fun st => forallb action_b3 (sc st (ev_market e) (ev_idx e))) (map Z.of_nat (seq 0 (Z.to_nat n))).
